@@ -168,7 +168,13 @@ def step(ex, st, d, depth):
         if inner[0] == 'list':
             _, items, pos = inner
             yield from step(ex, st, ('list', tuple(reversed(items[pos:])), 0), depth); return
-        raise Unsupported(f'rev of {inner[0]}')
+        # DoubleEndedIterator over a finite source: take everything from the front, hand it out from the back
+        # (sound for the pure sources/adaptors modelled here: list, enumerate, zip, map/cloned without effects)
+        for s2, items in drain(ex, st, inner, depth):
+            if isinstance(items, tuple):
+                yield s2, items, ('empty',); continue
+            yield from step(ex, s2, ('list', tuple(reversed(items)), 0), depth)
+        return
     if k == 'zip':
         _, a, b = d
         for s2, x, a2 in step(ex, st, a, depth):
